@@ -5,11 +5,13 @@ import (
 	"strconv"
 	"strings"
 	"testing"
+	"time"
 
 	"github.com/cybergarage/go-redis/redis"
 	"pgregory.net/rapid"
 
 	"verif/internal/connsim"
+	"verif/internal/doubles"
 	"verif/internal/resp"
 )
 
@@ -107,10 +109,20 @@ func evalC13(c c13Case) *Failure {
 			}
 		case "SELECT":
 			if me.auth {
+				n, _ := strconv.Atoi(string(*step.Req[1]))
+				if n < 0 || n > 15 {
+					// an unusual index may be accepted or refused; the connection's database follows the reply
+					if reply.Equal(resp.S("OK")) {
+						me.db = n
+					} else if !reply.IsError() {
+						return failf("c13|select-reply", "%s: %s", what, desc)
+					}
+					break
+				}
 				if !reply.Equal(resp.S("OK")) {
 					return failf("c13|select-refused", "%s: %s", what, desc)
 				}
-				me.db, _ = strconv.Atoi(string(*step.Req[1]))
+				me.db = n
 			} else if !reply.IsError() {
 				return failf("c13|select-unauthorized", "%s: %s on an unauthorized connection", what, desc)
 			}
@@ -122,6 +134,13 @@ func evalC13(c c13Case) *Failure {
 				me.token = string(*step.Req[1])
 			} else if !reply.IsError() {
 				return failf("c13|remember-unauthorized", "%s: %s on an unauthorized connection", what, desc)
+			}
+		case "CONFIG":
+			if me.auth && reply.IsError() {
+				return failf("c13|config-refused", "%s: %s", what, desc)
+			}
+			if !me.auth && !reply.IsError() {
+				return failf("c13|executed-unauthorized", "%s: %s on an unauthorized connection", what, desc)
 			}
 		default: // data command
 			if me.auth && len(newCalls) == 0 {
@@ -135,10 +154,70 @@ func evalC13(c c13Case) *Failure {
 	return nil
 }
 
-func init() { register("c13.steps", evalC13) }
+// c13StopMid: Server.Stop arrives while a command composed of several handler operations is between its
+// operations; the remaining operations must still see the connection's own database and authorization.
+type c13StopMid struct {
+	DB  int      `json:"db"`
+	Cmd []string `json:"cmd"` // composed command, e.g. INCR k / APPEND k v / MSET ...
+}
+
+func evalC13StopMid(c c13StopMid) *Failure {
+	srv, rec := newRecServer()
+	rec.ResultFn = getModeResult("null", "")
+	parked := make(chan struct{})
+	release := make(chan struct{})
+	first := true
+	rec.Gate = func(cl *doubles.Call) {
+		if cl.ConnID == 0 && cl.Frames == 1 && first { // first handler operation of the composed command
+			first = false
+			close(parked)
+			<-release
+		}
+	}
+	m, err := connsim.NewMulti(srv, 1, serveTimeout())
+	if err != nil {
+		return failf("harness|multi", "%v", err)
+	}
+	defer m.CloseAll()
+	if _, _, err := m.Step(0, resp.Cmd("SELECT", strconv.Itoa(c.DB)).Bytes()); err != nil {
+		return failf("harness|select", "%v", err)
+	}
+	m.Conns[0].Feed(resp.Cmd(c.Cmd...).Bytes())
+	select {
+	case <-parked:
+	case <-time.After(serveTimeout()):
+		return failf("harness|gate", "the composed command %v made no handler call", c.Cmd)
+	}
+	stopped := make(chan struct{})
+	go func() { srv.Stop(); close(stopped) }()
+	// Stop closes the registered connection; wait until it has done so, then let the command go on
+	deadline := time.Now().Add(5 * time.Second)
+	for !m.Conns[0].Closed() && time.Now().Before(deadline) {
+		time.Sleep(time.Millisecond)
+	}
+	close(release)
+	select {
+	case <-stopped:
+	case <-time.After(serveTimeout()):
+		return failf("c13|stop-hangs", "Stop did not return while %v was in progress", c.Cmd)
+	}
+	time.Sleep(5 * time.Millisecond)
+	m.CloseAll()
+	for _, cl := range rec.Snapshot() {
+		if cl.Frames >= 1 && (cl.DB != c.DB || !cl.Auth) {
+			return failf("c13|state-lost-in-command", "SELECT %d; %v with Stop arriving between its handler operations: %s saw database %d authorized=%v", c.DB, c.Cmd, callStr(cl), cl.DB, cl.Auth)
+		}
+	}
+	return nil
+}
+
+func init() {
+	register("c13.steps", evalC13)
+	register("c13.stopmid", evalC13StopMid)
+}
 
 func TestC13(t *testing.T) {
-	h := newHarness(t, "C13", "2..8 scripted connections of one server; per connection a script of SELECT n / AUTH (exact or clearly wrong password) / data commands (GET, SET, HGET, LPUSH, INCR) / REMEMBER t (an application executor storing a token in the connection's sync.Map); "+
+	h := newHarness(t, "C13", "2..8 scripted connections of one server; per connection a script of SELECT n (also unusual indexes) / AUTH (exact or clearly wrong password) / CONFIG SET requirepass|databases by another connection / data commands (GET, SET, HGET, LPUSH, INCR) / REMEMBER t (an application executor storing a token in the connection's sync.Map); "+
 		"password required in half of the cases. SYSTEMATIC: all 20 request-granularity interleavings of two connections with 3 requests each, for all script pairs over a 4-symbol alphabet (thorough; quick: a third of them); RANDOM: up to 8 connections, up to 6 requests each, random interleavings. "+
 		"Oracle: every handler call must show conn.Database(), conn.IsAuthrized() and the stored token of THAT connection's own model. Non-trivial: at the time of some handler call two connections hold different database ids, authorization states or tokens. Distinct = distinct (password, step sequence).")
 	defer h.Finish()
@@ -171,6 +250,7 @@ func TestC13(t *testing.T) {
 				if me.auth {
 					me.token = string(*s.Req[1])
 				}
+			case "CONFIG":
 			default:
 				for i := range st {
 					if st[i] != *me {
@@ -247,6 +327,16 @@ sys:
 	}
 	h.Col.Exhaustive(fmt.Sprintf("all 20 interleavings of two 3-request scripts over {SELECT,AUTH,GET,REMEMBER} for every %d-th script pair", stride), complete)
 
+	if h.Shard == 0 {
+		for _, cmd := range [][]string{{"INCR", "k"}, {"APPEND", "k", "v"}, {"MSET", "a", "1", "b", "2"}, {"MSETNX", "a", "1", "b", "2"}, {"DECRBY", "k", "3"}, {"HMSET", "h", "f", "v", "g", "w"}} {
+			for _, db := range []int{3, 15} {
+				c := c13StopMid{DB: db, Cmd: cmd}
+				h.Col.Case(true, []byte(fmt.Sprint("stopmid", c)), "stop-mid-command")
+				h.Report("c13.stopmid", c, evalC13StopMid(c))
+			}
+		}
+	}
+
 	h.Rapid("random", h.N(5000, 200000), func(rt *rapid.T) {
 		c := c13Case{Conns: rapid.IntRange(2, 8).Draw(rt, "conns")}
 		if rapid.Bool().Draw(rt, "pw") {
@@ -257,8 +347,20 @@ sys:
 			who := rapid.IntRange(0, c.Conns-1).Draw(rt, "who")
 			var r []*resp.Bin
 			switch rapid.IntRange(0, 9).Draw(rt, "kind") {
-			case 0, 1:
+			case 0:
 				r = []*resp.Bin{bp("SELECT"), bp(strconv.Itoa(rapid.IntRange(0, 15).Draw(rt, "db")))}
+			case 1:
+				switch rapid.IntRange(0, 3).Draw(rt, "odd") {
+				case 0:
+					r = []*resp.Bin{bp("SELECT"), bp(strconv.Itoa(rapid.SampledFrom([]int{-1, 16, 1000, -7}).Draw(rt, "odddb")))}
+				case 1:
+					// another connection changes the server's password requirement at run time: existing connections keep their state
+					r = []*resp.Bin{bp("CONFIG"), bp("SET"), bp("requirepass"), bp(rapid.SampledFrom([]string{"newpw", "sesame", ""}).Draw(rt, "newpw"))}
+				case 2:
+					r = []*resp.Bin{bp("CONFIG"), bp("SET"), bp("databases"), bp("16")}
+				default:
+					r = []*resp.Bin{bp("SELECT"), bp(strconv.Itoa(rapid.IntRange(0, 15).Draw(rt, "db")))}
+				}
 			case 2:
 				r = []*resp.Bin{bp("AUTH"), bp("sesame")}
 			case 3:
